@@ -177,6 +177,9 @@ static void List_Del(var self) {
 static void List_Assign(var self, var obj) {
   struct List* l = self;
   
+  /* Assigned from itself: nothing to do (and nothing to clear first) */
+  if (self is obj) { return; }
+  
   List_Clear(self);
   
   l->type = implements_method(obj, Iter, iter_type) ? iter_type(obj) : Ref;
